@@ -22,11 +22,11 @@ SPEC = r'''
 pub struct HandlingError { pub code: Option<ResponseType>, pub message: String }
 impl HandlingError {
     #[verifier::external_body] pub fn not_handled() -> (r: Self) ensures r.code is None { unimplemented!() }
-    #[verifier::external_body] pub fn internal_str(e: String) -> (r: Self) ensures r.code == Some(ResponseType::InternalServerError) { unimplemented!() }
-    #[verifier::external_body] pub fn internal_block(e: InvalidBlockValue) -> (r: Self) ensures r.code == Some(ResponseType::InternalServerError) { unimplemented!() }
-    #[verifier::external_body] pub fn internal_msg(e: MessageError) -> (r: Self) ensures r.code == Some(ResponseType::InternalServerError) { unimplemented!() }
-    #[verifier::external_body] pub fn internal_lit(e: &str) -> (r: Self) ensures r.code == Some(ResponseType::InternalServerError) { unimplemented!() }
-    #[verifier::external_body] pub fn bad_request_str(e: String) -> (r: Self) ensures r.code == Some(ResponseType::BadRequest) { unimplemented!() }
+    #[verifier::external_body] pub fn not_found() -> (r: Self) ensures r.code == Some(ResponseType::NotFound) { unimplemented!() }
+    #[verifier::external_body] pub fn bad_request<T>(e: T) -> (r: Self) ensures r.code == Some(ResponseType::BadRequest) { unimplemented!() }
+    #[verifier::external_body] pub fn internal<T>(e: T) -> (r: Self) ensures r.code == Some(ResponseType::InternalServerError) { unimplemented!() }
+    #[verifier::external_body] pub fn method_not_supported() -> (r: Self) ensures r.code == Some(ResponseType::MethodNotAllowed) { unimplemented!() }
+    #[verifier::external_body] pub fn with_code<T>(code: ResponseType, e: T) -> (r: Self) ensures r.code == Some(code) { unimplemented!() }
 }
 pub struct InvalidBlockValue { pub dummy: u8 }
 #[verifier::external_body] fn fmt_stub() -> String { unimplemented!() }
@@ -454,13 +454,12 @@ def build(repo):
             r is Ok ==> r->Ok_0 == overhead_of(*old(packet)) + old(packet).payload@.len() && r->Ok_0 <= usize::MAX / 4''')
     u.rule('R21:extending_splice', r'extending_splice\(\s*(&mut \w+|\w+),\s*(\w+)\s*\.\.\s*([^,]+),\s*([\w\.]+)\.iter\(\)\.copied\(\),\s*(\w+),?\s*\)',
            r'extending_splice_u8(\1, \2, \3, &\4, \5)', 1)
-    u.rule('R9:internal-fn-item', r'\.map_err\(HandlingError::internal\)\?', '.map_err(HandlingError::internal_str)?', 1)
     u.rule('R24:states-entry', r'self\s*\.states\s*\.entry\(request\.deref\(\)\.into\(\)\)\s*\.or_insert\(BlockState::default\(\)\)',
            'states_entry(&mut self.states, request_key(request))', 2)
     u.rule('R23:ref-mut-pattern', r'if let Some\(ref mut response\) = request\.response \{', 'if let Some(response) = &mut request.response {', 1)
     u.rule('R27:packet-clone', r'response\.message\.clone\(\)', 'packet_clone(&response.message)', 1)
     u.rule('R0:alloc-path', r'alloc::collections::btree_map::Iter', 'std::collections::btree_map::Iter', 1)
-    u.rule('R9:bad_request(format!)', r'HandlingError::bad_request\(format!\((?:[^()]|\([^()]*\))*\)\)', 'HandlingError::bad_request_str(fmt_stub())', 1)
+    u.rule('R9:format!', r'format!\((?:[^()]|\([^()]*\))*\)', 'fmt_stub()', (0, 9))
     u.rule('R20:set_options_as-single', r'(\w+(?:\.\w+)*)\.set_options_as::<BlockValue>\(\s*(CoapOption::\w+),\s*\[(\w+)\]\.into\(\),?\s*\)',
            r'set_single_option_as(&mut \1, \2, \3)', 1)
     u.rule('R23:ref-pattern-in-for', r'for \(&option, value\) in src\.options\(\) \{', 'for (option_ref, value) in src.options() { let option = *option_ref;', 1)
